@@ -87,6 +87,9 @@ func runHistories(c *ctx, which string) error {
 		cfg.Exact = c.rng.Intn(3) == 0
 		cfg.SkipIdx = c.rng.Intn(3) == 0
 		skipNameCheck := which != "c12" && c.rng.Intn(2) == 0
+		if which == "c15" {
+			skipNameCheck = true
+		}
 		dir := filepath.Join(c.work, fmt.Sprintf("h%d", i))
 		os.MkdirAll(dir, 0755)
 		gocfg := cfg.cfg()
@@ -354,7 +357,7 @@ func runHistories(c *ctx, which string) error {
 			obs = append(obs, observe(st, dir, status))
 			// every table file the stack code produced (Add, compaction) is judged by the spec decoder
 			for _, n := range readList(dir) {
-				if !seenTab[n] {
+				if !seenTab[n] && which != "c15" {
 					seenTab[n] = true
 					if data, err := ioutil.ReadFile(filepath.Join(dir, n)); err == nil {
 						c.emit("wellformed", hx(data), "ok")
@@ -365,6 +368,18 @@ func runHistories(c *ctx, which string) error {
 			if status == "panic" {
 				break
 			}
+		}
+		if which == "c15" {
+			// the C implementation opens the directory the Go stack wrote and scans it
+			cview := ctwinDrv.ask(fmt.Sprintf("SR %s %d", dir, b2i(cfg.SHA256)))
+			st.Close()
+			os.RemoveAll(dir)
+			last := ""
+			if len(obs) > 0 {
+				last = obs[len(obs)-1]
+			}
+			c.emit("cstack_gc", fmt.Sprintf("%s|%d|%s", cfg, b2i(!skipNameCheck), strings.Join(ops, "!")), last+"#"+cview)
+			continue
 		}
 		st.Close()
 		os.RemoveAll(dir)
